@@ -132,8 +132,9 @@ struct World {
     /// different causal lengths for the key, the key's fate is then not defined by the property) and the number
     /// of events received before the batch was sent
     offered: BTreeMap<String, Vec<(Option<i64>, usize)>>,
-    /// database family: key -> number of events received before the op that last changed its row started
-    last_change: BTreeMap<String, usize>,
+    /// database family: key -> (number of events received before the op that last changed its row started,
+    /// was the listener attached when that op ran)
+    last_change: BTreeMap<String, (usize, bool)>,
     /// keys of table t named by a statement of any local or peer transaction (a transaction that inserts and
     /// deletes a row changes its causal length without a visible difference, and is rightly notified)
     mentioned: BTreeSet<String>,
@@ -322,7 +323,7 @@ impl World {
         let keys: BTreeSet<&String> = before.keys().chain(after.keys()).collect();
         for k in keys {
             if before.get(k) != after.get(k) {
-                self.last_change.insert(k.clone(), at);
+                self.last_change.insert(k.clone(), (at, self.feed.is_some()));
             }
         }
     }
@@ -641,7 +642,9 @@ impl World {
     // ------------------------------------------------------------------ the property, on the real observations only
 
     async fn oracle(&mut self, fails: &mut Vec<String>) -> R<()> {
-        let Some(attached_at) = self.attached_at_event else { return Ok(()) };
+        if self.attached_at_event.is_none() {
+            return Ok(());
+        }
         // everything still in flight must come out first
         let n = if self.feed.as_ref().unwrap().flush_seen { 1 } else { consts().thr };
         self.op_sync(n).await?;
@@ -713,8 +716,8 @@ impl World {
                     ));
                 }
             }
-            for (k, at) in &self.last_change {
-                if m_keys.contains(k) || *at < attached_at {
+            for (k, (at, attached)) in &self.last_change {
+                if m_keys.contains(k) || !*attached {
                     continue;
                 }
                 match last.get(k) {
@@ -841,11 +844,9 @@ fn gen_db_case(rng: &mut Rng, c: Consts, dl: u64) -> Vec<String> {
     let mut peer_versions: Vec<(u64, Vec<(u64, u64)>)> = vec![];
     let mut unapplied: Vec<u64> = vec![];
     let remote = rng.chance(1, 2);
-    // before the listener attaches.  Such rows are not in cl_cache, and `process_multiple_changes` hands the
-    // first change of every later changeset of a batch to match_changes even when it lost the merge (reported
-    // finding `remote-batch-spurious-candidate`, pinned in corpus/C14): in these cases the peer's versions are
-    // therefore applied one per call, so the generator stays out of that region.
-    let pre = rng.chance(1, 5);
+    // before the listener attaches: such rows are not in cl_cache (a stale candidate for them would not be
+    // suppressed; regression case corpus/C14/remote_batch_spurious_candidate.ops, repo commit 80d703f)
+    let pre = rng.chance(1, 4);
     if pre {
         for _ in 0..rng.range(1, 3) {
             let (s, _) = gen_tx(rng, &mut a, &keys, &mut val);
@@ -894,14 +895,14 @@ fn gen_db_case(rng: &mut Rng, c: Consts, dl: u64) -> Vec<String> {
             }
             17 | 18 if remote && !unapplied.is_empty() => {
                 // a subset of the peer's versions, in any order, sometimes one that was applied before
-                let mut pickn = if pre { 1 } else { rng.range(1, unapplied.len() as u64) as usize };
+                let mut pickn = rng.range(1, unapplied.len() as u64) as usize;
                 let mut vs = vec![];
                 rng.shuffle(&mut unapplied);
                 while pickn > 0 {
                     vs.push(unapplied.pop().unwrap());
                     pickn -= 1;
                 }
-                if !pre && rng.chance(1, 6) && !peer_versions.is_empty() {
+                if rng.chance(1, 6) && !peer_versions.is_empty() {
                     vs.push(rng.pick(&peer_versions).0);
                 }
                 for v in &vs {
@@ -929,13 +930,7 @@ fn gen_db_case(rng: &mut Rng, c: Consts, dl: u64) -> Vec<String> {
     }
     if remote && !unapplied.is_empty() && rng.chance(2, 3) {
         rng.shuffle(&mut unapplied);
-        if pre {
-            for v in &unapplied {
-                ops.push(format!("r {v}"));
-            }
-        } else {
-            ops.push(format!("r {}", unapplied.iter().map(|v| v.to_string()).collect::<Vec<_>>().join(",")));
-        }
+        ops.push(format!("r {}", unapplied.iter().map(|v| v.to_string()).collect::<Vec<_>>().join(",")));
     }
     if !synced {
         ops.push(if first >= dl { "drain".into() } else { "force".into() });
